@@ -1,0 +1,90 @@
+//go:build verif
+
+package rest
+
+import (
+	"github.com/inbucket/inbucket/v3/pkg/msghub"
+)
+
+// VerifListener gives the verification harness access to a real WebSocket hub listener
+// (v1 or v2) without a network peer: the harness plays the role of the socket writer by
+// taking events from the listener's queue, and of the socket reader by calling Close.
+type VerifListener struct {
+	v1 *msgListenerV1
+	v2 *msgListenerV2
+}
+
+// VerifNewListenerV1 constructs and registers a v1 listener exactly as the web handlers do.
+func VerifNewListenerV1(hub *msghub.Hub, mailbox string) *VerifListener {
+	return &VerifListener{v1: newMsgListenerV1(hub, mailbox)}
+}
+
+// VerifNewListenerV2 constructs and registers a v2 listener exactly as the web handlers do.
+func VerifNewListenerV2(hub *msghub.Hub, mailbox string) *VerifListener {
+	return &VerifListener{v2: newMsgListenerV2(hub, mailbox)}
+}
+
+// Listener returns the msghub.Listener registered with the hub.
+func (l *VerifListener) Listener() msghub.Listener {
+	if l.v1 != nil {
+		return l.v1
+	}
+	return l.v2
+}
+
+// Close is what the socket reader/writer call when the peer goes away.
+func (l *VerifListener) Close() {
+	if l.v1 != nil {
+		l.v1.Close()
+		return
+	}
+	l.v2.Close()
+}
+
+// QueueCap is the capacity of the queue between the hub and the socket writer.
+func (l *VerifListener) QueueCap() int {
+	if l.v1 != nil {
+		return cap(l.v1.c)
+	}
+	return cap(l.v2.c)
+}
+
+// QueueLen is the number of events waiting for the socket writer.
+func (l *VerifListener) QueueLen() int {
+	if l.v1 != nil {
+		return len(l.v1.c)
+	}
+	return len(l.v2.c)
+}
+
+// Take removes the next queued event without blocking, as the socket writer would.
+// deleted tells a message-deleted event from a message-stored one; ok is false when the
+// queue is empty (or has been closed).
+func (l *VerifListener) Take() (deleted bool, mailbox string, id string, ok bool) {
+	if l.v1 != nil {
+		select {
+		case msg, open := <-l.v1.c:
+			if !open {
+				return false, "", "", false
+			}
+			return false, msg.Mailbox, msg.ID, true
+		default:
+			return false, "", "", false
+		}
+	}
+	select {
+	case ev, open := <-l.v2.c:
+		if !open || ev == nil {
+			return false, "", "", false
+		}
+		if ev.Variant == "message-deleted" && ev.Identifier != nil {
+			return true, ev.Identifier.Mailbox, ev.Identifier.ID, true
+		}
+		if ev.Header != nil {
+			return false, ev.Header.Mailbox, ev.Header.ID, true
+		}
+		return false, "", "", true
+	default:
+		return false, "", "", false
+	}
+}
